@@ -23,6 +23,8 @@ import (
 
 var c08alphabet = []string{"b", "a", "1", "true", "", "a: b"}
 
+var c08lookalikes = []string{"0x10", "16", "True", "~", "1.0", "010", "+7", "null"}
+
 type c08pos struct {
 	name  string
 	build func(m *docgen.N) *docgen.N // document containing m
@@ -201,6 +203,24 @@ func c08sequences(thorough bool) [][]string {
 		}
 	}
 	rec(nil, 0)
+	// string keys that look like non-string YAML scalars in a non-canonical
+	// spelling: all permutations of all subsets of <=3 of them
+	la := c08lookalikes
+	var rec2 func(cur []string, used int)
+	rec2 = func(cur []string, used int) {
+		if len(cur) > 0 {
+			out = append(out, append([]string{}, cur...))
+		}
+		if len(cur) == 3 {
+			return
+		}
+		for i := range la {
+			if used&(1<<i) == 0 {
+				rec2(append(cur, la[i]), used|1<<i)
+			}
+		}
+	}
+	rec2(nil, 0)
 	for _, size := range []int{10, 17} {
 		base := make([]string, size)
 		for i := range base {
@@ -279,6 +299,14 @@ func c08run(w *report.W) {
 		{"steps: []\nmeta: {2: a, 1: b, 0x10: c, true: d, 1.5: e, no: f}\n", "2,1,16,true,1.500000e+00,no"},
 		{"steps: []\nenv: {2: a, 1: b, 0x10: c, true: d}\n", "2,1,16,true"},
 		{"steps:\n  - zz: 1\n    010: x\n    9: y\n    -1: z\n", "zz,8,9,-1"},
+		// a mapping with a merge that spells one of the merged keys differently (same canonical key): the own entry wins, at its own position
+		{"zz: &d {16: m16, true: mt, mm: x}\nsteps: []\nmeta: {<<: *d, 0x10: own16, True: ownT}\n", "mm=x,16=own16,true=ownT"},
+		{"zz: &d {16: m16, true: mt, mm: x}\nsteps: []\nmeta: {0x10: own16, <<: *d, True: ownT}\n", "16=own16,mm=x,true=ownT"},
+		{"zz: &d {0x10: m16, mm: x}\nsteps: []\nmeta: {z: 1, <<: *d, 16: own16}\n", "z=1,mm=x,16=own16"},
+		{"zz: &d {1.0: m1, mm: x}\nsteps: []\nmeta: {<<: *d, 1e0: own1}\n", "mm=x,1.000000e+00=own1"},
+		{"kk: &k kname\nzz: &d {kname: m, mm: x}\nsteps: []\nmeta: {<<: *d, *k : own}\n", "mm=x,kname=own"},
+		{"zz: &d {16: m16, true: mt, mm: x}\nsteps: []\nenv: {<<: *d, 0x10: own16, True: ownT}\n", "mm=x,16=own16,true=ownT"},
+		{"zz: &d {16: m16, mm: x}\nsteps:\n  - command: c\n    agents: {<<: *d, 0x10: own16}\n", "mm=x,16=own16"},
 	} {
 		if !w.Take(fmt.Sprintf("unquoted|%d", i)) {
 			continue
@@ -292,16 +320,31 @@ func c08run(w *report.W) {
 		js, _ := json.Marshal(p)
 		tree, _ := docgen.FromJSON(js)
 		var got *docgen.N
-		switch i {
-		case 0:
+		switch {
+		case strings.Contains(tc.text, "\nmeta:"):
 			got = tree.Get("meta")
-		case 1:
+		case strings.Contains(tc.text, "\nenv:"):
 			got = tree.Get("env")
-		case 2:
+		case strings.Contains(tc.text, "agents:"):
+			got = c08at(tree, []any{"steps", 0, "agents"})
+		default:
 			got = c08at(tree, []any{"steps", 0})
 		}
-		if got == nil || strings.Join(got.Keys, ",") != tc.want {
-			w.Violate(report.Violation{Kind: "unquoted-keys", Case: tc.text, Detail: fmt.Sprintf("got %v want %s in %s", got, tc.want, js), Size: 3})
+		gotS := ""
+		if got != nil {
+			var parts []string
+			for j, k := range got.Keys {
+				if strings.Contains(tc.want, "=") && got.Vals[j].K == docgen.KStr {
+					k += "=" + got.Vals[j].S
+				} else if strings.Contains(tc.want, "=") && got.Vals[j].K == docgen.KInt {
+					k += "=" + fmt.Sprint(got.Vals[j].I)
+				}
+				parts = append(parts, k)
+			}
+			gotS = strings.Join(parts, ",")
+		}
+		if got == nil || gotS != tc.want {
+			w.Violate(report.Violation{Kind: "unquoted-keys", Case: tc.text, Detail: fmt.Sprintf("got %s want %s in %s", gotS, tc.want, js), Size: 3})
 		}
 	}
 	// programmatic maps: encode -> decode -> Equal
@@ -380,9 +423,9 @@ func init() {
 	register(&report.Check{
 		ID: "C08",
 		Rule: "key sequences: all 1957 permutations of all subsets of {b, a, \"1\", \"true\", \"\", \"a: b\"} plus every rotation and the reversal of an unsorted 10-key and 17-key list; each placed at 15 order-preserving " +
-			"positions (pipeline env; top-level extra at depth 1 and 3; unknown fields of command / wait / input / trigger / group steps at depth 1-3, inside matrix adjustments, inside a grouped command; unknown steps at " +
+			"positions (all permutations of <=3 of 8 string keys that look like non-canonical YAML scalars: 0x10, 16, True, ~, 1.0, 010, +7, null; pipeline env; top-level extra at depth 1 and 3; unknown fields of command / wait / input / trigger / group steps at depth 1-3, inside matrix adjustments, inside a grouped command; unknown steps at " +
 			"top level, nested, and in a bare step list) in JSON and YAML input, with a `<<` merge placed at every index (source repeats an earlier and a later explicit key and adds two new keys); output key order " +
-			"read back from the JSON token stream and the YAML node order; unquoted numeric/boolean keys canonicalised in place; programmatic maps (with tombstones, nested 3 deep, MapSA and MapSS) survive JSON and YAML " +
+			"read back from the JSON token stream and the YAML node order; unquoted numeric/boolean keys canonicalised in place, also when a merge supplies the same key under another spelling (own entry wins at its own position); programmatic maps (with tombstones, nested 3 deep, MapSA and MapSS) survive JSON and YAML " +
 			"encode -> decode with ordered.Equal. Non-trivial = more than one key.",
 		Assumptions: []string{
 			"legacy plugins mappings are covered by C03 (sources are canonicalised there); here keys are arbitrary strings",
